@@ -334,6 +334,10 @@ func ttxDecode(cells string, opt [3]uint8) (std, alt string) {
 type ttxSeg struct {
 	Codes []byte `json:"codes"` // colour (0..7) / size (0x0c..0x0f) codes in front of the text
 	Text  string `json:"text"`  // G0 characters 0x20..0x7e
+	// ReboxAt > 0: the box is closed after that many characters of Text and opened again ahead of the rest, with Unboxed
+	// (text outside any box: not part of the subtitle) in between; no colour or size code is involved, so the run goes on
+	ReboxAt int    `json:"rebox_at,omitempty"`
+	Unboxed string `json:"unboxed,omitempty"`
 }
 
 type ttxRow struct {
@@ -349,6 +353,14 @@ func (r ttxRow) cells() []byte {
 	c = append(c, 0x0b, 0x0b)
 	for _, s := range r.Segs {
 		c = append(c, s.Codes...)
+		if s.ReboxAt > 0 && s.ReboxAt < len(s.Text) {
+			c = append(c, s.Text[:s.ReboxAt]...)
+			c = append(c, 0x0a, 0x0a)
+			c = append(c, s.Unboxed...)
+			c = append(c, 0x0b, 0x0b)
+			c = append(c, s.Text[s.ReboxAt:]...)
+			continue
+		}
 		c = append(c, s.Text...)
 	}
 	return append(c, 0x0a, 0x0a)
@@ -698,11 +710,18 @@ func expLine(r ttxRow, opt [3]uint8) ttxExpLine {
 		cells := []byte(s.Text)
 		var kept []byte
 		for i, c := range cells {
-			if !bad[pos+i] {
+			at := pos + i
+			if s.ReboxAt > 0 && s.ReboxAt < len(cells) && i >= s.ReboxAt {
+				at += 4 + len(s.Unboxed)
+			}
+			if !bad[at] {
 				kept = append(kept, c)
 			}
 		}
 		pos += len(cells)
+		if s.ReboxAt > 0 && s.ReboxAt < len(cells) {
+			pos += 4 + len(s.Unboxed)
+		}
 		std, alt := ttxDecode(string(kept), opt)
 		if strings.TrimSpace(std) != "" {
 			run := st
@@ -839,6 +858,11 @@ func genTTXRow(t *rapid.T, y uint8) ttxRow {
 			sg.Text = " " + sg.Text
 		}
 		budget -= len(sg.Codes) + len(sg.Text)
+		if len(sg.Text) >= 2 && budget >= 8 && rapid.IntRange(0, 5).Draw(t, "rebox") == 0 {
+			sg.ReboxAt = rapid.IntRange(1, len(sg.Text)-1).Draw(t, "reboxat")
+			sg.Unboxed = rapid.SampledFrom([]string{"", "  ", "xx", " x"}).Draw(t, "unboxed")
+			budget -= 4 + len(sg.Unboxed)
+		}
 		r.Segs = append(r.Segs, sg)
 	}
 	if rapid.IntRange(0, 5).Draw(t, "parity") == 0 {
